@@ -18,6 +18,7 @@ func init() {
 				{Harness: "c07.guard", Mode: "plain", Shards: 4, GC: "on"},
 				{Harness: "c07.slices", Mode: "shim", Shards: 16},
 				{Harness: "c07.stack", Mode: "plain", Shards: 4, GC: "on"},
+				{Harness: "c07.views", Mode: "plain", Shards: 4, GC: "on"},
 			}
 		},
 	})
